@@ -7,6 +7,18 @@ vars == <<l, st, bad, segid, viol, done>>
 V(field, e, g) == [field |-> field, exp |-> ToString(e), got |-> ToString(g)]
 Chk(ok, field, e, g) == IF ok THEN <<>> ELSE <<V(field, e, g)>>
 InstOf(ev) == IF ev.e \in {"ccall", "resume"} THEN ev.a[1] ELSE 0
+\* op cargs k a1..a15: the clause evaluated during the call of an eagerly started 15-parameter coroutine computes
+\* sum(i * _i): a positional name bound to the wrong argument changes the sum (the arguments are pairwise different)
+RECURSIVE WSum(_, _)
+WSum(a, i) == IF i > 15 THEN 0 ELSE i * a[i + 1] + WSum(a, i + 1)
+ArgsMis(ev) ==
+  LET k == ev.a[1]  s == WSum(ev.a, 1)
+      want == CASE k \in {1, 4} -> [st |-> 2, cur |-> 0, val |-> s, ex |-> ""]
+                [] k = 2 -> [st |-> 3, cur |-> 0, val |-> 0, ex |-> ToString(s)]
+                [] OTHER -> [st |-> 1, cur |-> s, val |-> 0, ex |-> ""]
+  IN  Chk(ev.skip = 0 /\ ev.acc = 1, "accepted-at-call", 1, <<ev.skip, ev.acc>>)
+   \o Chk(ev.ist = want, "positional-names", want, ev.ist)
+
 Mis(r, ev) ==
   LET o == r.obs  post == r.st  i == InstOf(ev)
       wantst == IF i \in Insts /\ o.acc = 1 /\ post.inst[i].alive /\ ~(ev.e = "ccall" /\ o.skip = 1) THEN Status(post.inst[i]) ELSE NoStatus
@@ -33,6 +45,10 @@ Consume ==
        [] ev.e = "Fin" -> UNCHANGED <<st, bad, segid, viol>>
        [] ev.e = "Terminate" -> /\ UNCHANGED <<st, segid>> /\ bad' = TRUE
                                 /\ viol' = viol \o Stamp(<<V("terminate", "no std::terminate", "terminate")>>, l, segid)
+       [] ev.e = "cargs" -> IF bad THEN UNCHANGED <<st, bad, segid, viol>>
+                   ELSE LET ms == ArgsMis(ev) IN
+                        /\ UNCHANGED <<st, segid>> /\ bad' = (ms # <<>>)
+                        /\ viol' = IF Len(viol) < 200 THEN viol \o Stamp(ms, l, segid) ELSE viol
        [] OTHER -> IF bad THEN UNCHANGED <<st, bad, segid, viol>>
                    ELSE LET r == Step(st, ev)  ms == Mis(r, ev) IN
                         /\ st' = r.st /\ segid' = segid /\ bad' = (ms # <<>>)
